@@ -203,6 +203,15 @@ inline void Sweep::types_and_names()
    {  auto& nm = *rng.pick(P.names); auto& t = P.T(); auto* n = &lex.get_symbol(nm, t); add_node("get_symbol", n, Category_code::Symbol, [n, np = &nm, tp = &t](Ck& c) { c.same("name", &n->name(), np); c.type_is(*n, *tp, "given"); }, false); }
    {  auto& id = *rng.pick(P.idents); auto* n = &lex.get_label(id); add_node("get_label", n, Category_code::Symbol, [n, ip = &id, vt = &L.void_type()](Ck& c) { c.same("name", &n->name(), static_cast<const Name*>(ip)); c.type_is(*n, *vt, "label symbol: void"); }, false); }
    {  auto& t = P.T(); auto* n = &lex.get_this(t); add_node("get_this", n, Category_code::Symbol, [n, tp = &t](Ck& c) { c.type_is(*n, *tp, "given"); auto id = util::view<Identifier>(n->name()); c.yes("name", id && id->string().characters() == u8"this", "`this` symbol is not named this"); }, false); }
+   // the same name asked with different types (and a label beside a value symbol of the same name): each result must keep its own operands
+   {  auto& nm = *rng.pick(P.names); auto ts = P.distinct(P.types, 3);
+      for (int i = 0; i < 3; ++i) { auto* n = &lex.get_symbol(nm, *ts[i]); add_node("get_symbol(same name, type " + std::to_string(i) + ")", n, Category_code::Symbol, [n, np = &nm, tp = ts[i]](Ck& c) { c.same("name", &n->name(), np); c.type_is(*n, *tp, "given"); }, false); } }
+   {  auto ts = P.distinct(P.types, 2);
+      for (int i = 0; i < 2; ++i) { auto* n = &lex.get_this(*ts[i]); add_node("get_this(type " + std::to_string(i) + ")", n, Category_code::Symbol, [n, tp = ts[i]](Ck& c) { c.type_is(*n, *tp, "given"); }, false); } }
+   {  auto& id = *rng.pick(P.idents); auto* lab = &lex.get_label(id); auto* sym = &lex.get_symbol(id, L.bool_type()); auto* lab2 = &lex.get_label(id);
+      add_node("get_label(beside get_symbol of the same name)", lab, Category_code::Symbol, [lab, lab2, sym, ip = &id, vt = &L.void_type(), bt = &L.bool_type()](Ck& c) {
+         c.same("name", &lab->name(), static_cast<const Name*>(ip)); c.type_is(*lab, *vt, "label symbol: void"); c.type_is(*sym, *bt, "given");
+         c.same("identity", lab2, lab, A_IDENTITY); c.yes("identity", static_cast<const Node*>(sym) != lab, "a value symbol and a label of the same name are one node", A_IDENTITY); }, false); }
    // constants: kind-fixed types
    add_node("true_value", &L.true_value(), Category_code::Symbol, [s = &L.true_value(), bt = &L.bool_type()](Ck& c) { c.type_is(*s, *bt, "truth value: bool"); }, false);
    add_node("false_value", &L.false_value(), Category_code::Symbol, [s = &L.false_value(), bt = &L.bool_type()](Ck& c) { c.type_is(*s, *bt, "truth value: bool"); }, false);
